@@ -2,7 +2,7 @@ package main
 
 func propSpecs() map[string]*PropSpec {
 	m := map[string]*PropSpec{}
-	for _, s := range []*PropSpec{specC17()} {
+	for _, s := range []*PropSpec{specC17(), specC09()} {
 		m[s.ID] = s
 	}
 	return m
@@ -29,5 +29,26 @@ func specC17() *PropSpec {
 			"morton.init (mask tables) is executed by the interpreter from the real source",
 		},
 		Outside: []string{"nothing within the 64-bit word: the claim is exhaustive over all input values"},
+	}
+}
+
+func specC09() *PropSpec {
+	b := "all integer points (|coordinate| < 2^61 internal units) outside the grid or within 2-3 pixels of a border inside it; accepted built-in sets x ids; float->int step abstracted (quantified over its integer result)"
+	return &PropSpec{
+		ID:       "C09",
+		NeedsGen: true,
+		Obligations: []Obligation{
+			{Harness: "VerifC09InsertPointQuick", Pkg: "pointindex", Mode: "math", Tiers: "quick", Covers: []string{"accepted", "rejected"},
+				Desc: "InsertPoint accepts exactly the points of the half-open pixel grid; ids {0, mid, max} of every accepted built-in set", Bounds: b},
+			{Harness: "VerifC09InsertPointThorough", Pkg: "pointindex", Mode: "math", Tiers: "thorough", Covers: []string{"accepted", "rejected"},
+				Desc: "same, every id of every accepted built-in set", Bounds: b},
+			{Harness: "VerifC09InsertPointSynthetic", Pkg: "pointindex", Mode: "math", Tiers: "both", Covers: []string{"accepted", "rejected"},
+				Desc: "same on synthetic dyadic grids with zero, negative, fractional and large origins", Bounds: b},
+		},
+		Assumptions: []string{
+			"float step of intgeom.FromGeomOrd abstracted in the integer obligations (harness quantifies over the resulting int64); the float step is a separate obligation",
+			"levels deeper than 32 excluded here (Morton range, see C06)",
+		},
+		Outside: []string{"points more than 3 pixels inside the grid (same division, no border involved)", "tile matrix sets other than the built-in accepted ones and the synthetic family"},
 	}
 }
